@@ -65,6 +65,25 @@ def main(tier):
                 if not (x == y == z):
                     print('  first divergence at index %d (seed %d)' % (i, F.seed_for(4242, pid, i)))
                     break
+    # the verdicts and counters of a check must not depend on how the cases are spread over workers
+    for pid in ('C04', 'C12', 'C17'):
+        outs = []
+        nn = 8 if pid == 'C17' else 120
+        for jobs in (1, 3):
+            st = F.Stats()
+            sigs = []
+            for j in range(jobs):
+                s_, v_, h_, _d = F._worker((pid, 4242, list(range(j, nn, jobs)), 'quick', 0))
+                st.merge(s_)
+                sigs.extend(x[0] for x in v_)
+                if h_:
+                    bad += 1
+                    print('HARNESS-ERROR in worker-split self-test: %s' % h_[0][1][-300:])
+            outs.append((dict(st.probes), st.ops, st.sims, sorted(sigs)))
+        same = outs[0] == outs[1]
+        print('selftest %s: %d cases split over 1 and over 3 workers: counters and verdicts %s' % (pid, nn, 'identical' if same else 'DIFFERENT'))
+        if not same:
+            bad += 1
     if bad:
         print('HARNESS-ERROR determinism self-test failed')
         return 2
